@@ -131,6 +131,9 @@ class C10Mixin(object):
             a.neutron = rec
             return "ok"
         if target in ("neutron_field", "neutron_field_dataless"):
+            own = "neutron" in a.__dict__
+            if own != (target == "neutron_field"):
+                return "skip"      # the record served is (not) the class-level placeholder
             rec = a.neutron
             rec.b_c = v
             rec.total = v
